@@ -76,6 +76,11 @@ CLAIMS = {
         "Exploration: 26 amplitude models x 60 (quick) / 1500 (thorough) generated parameter sets x modes x q; predicates are the statement's own clauses.",
         "Domain as quantified: random()/default parameter sets, dispersity widths <= 0.2; spherical = category shape:sphere without orientation parameters.",
         "DESIGN.md section 3 C14"),
+    "C15": (
+        "generated kernel sources of all compiled models + grammar-generated C fragments (Hypothesis) + generated precision requests; oracle = harness C preprocessing-token lexer: token streams of the float/long double conversions must equal the double token stream with exactly the type keywords and unsuffixed floating literals changed; differential builds against double",
+        "Exploration: 61 builtin sources + 24k (quick) / 960k (thorough) fragments + generated (model, dtype spelling, forced-library suffix) builds; one defect repaired (adjacent keywords), three listed findings keyed by token class, every differing token class of a fragment is reported.",
+        "Token = C99 preprocessing token by the harness lexer; well-formedness of fragments is by construction of the grammar; quad vs double compared at 1e-9, single at 5e-5 of max|I|.",
+        "DESIGN.md section 3 C15"),
     "C19": (
         "Hypothesis-generated spin-echo grids / wavelengths / acceptances with Gaussians placed inside the transform's own q range; oracle = analytic Hankel pair, adaptive quadrature for the acceptance-limited J0 term, linearity and grid predicates, Gxi end-to-end scale/background relation",
         "Exploration: ~640 (quick) / ~6.4k (thorough) generated transforms incl. single-point sets, per-point wavelengths and restricted acceptance; one defect repaired (acceptance units).",
